@@ -304,6 +304,62 @@ def check_coverage(ctx, covered):
            'the exempt attribute Model.txt_dict is never assigned (so nothing is lost by not pickling it)', '')
 
 
+def check_reduce_coverage(ctx):
+    """classes with their own hand-written __reduce__: nothing that is state may be dropped on the way through the reducer"""
+    prog = ctx.prog
+    for cls, ci in sorted(prog.classes.items()):
+        f = ci.methods.get('__reduce__')
+        if f is None or ci.node is None or not getattr(ci.node, 'cy_cdef', False):
+            continue
+        mod = ci.module
+        ctx.functions.add('%s:%s.__reduce__' % (mod, cls))
+        rets = [x for x in f.body if isinstance(x, ast.Return)]
+        problems = []
+        if len(rets) != 1 or not isinstance(rets[0].value, ast.Tuple) or len(rets[0].value.elts) < 2:
+            raise AnalysisError('%s.__reduce__: return value is not a (callable, args[, state]) tuple' % cls)
+        elts = rets[0].value.elts
+        mentioned = set()
+        for e in elts[1:]:
+            for n in ast.walk(e):
+                if isinstance(n, ast.Attribute) and src(n.value) == 'self':
+                    mentioned.add(n.attr)
+            if k(src(e)) == 'self.__getstate__()':
+                gp, _, _ = get_positions(prog, cls)
+                mentioned |= set(a for a in (gp or []) if a != '?')
+        ctor_call = k(src(elts[0])) in ('self.__class__', 'type(self)', cls)
+        dci, init = prog.resolve_method(cls, '__init__')
+        params = [a.arg for a in init.args.args[1:]] if init is not None else []
+        writers = {}
+        for c in prog.mro(cls):
+            for mname, m in prog.classes[c].methods.items():
+                if mname in ('__init__', '__setstate__', '__cinit__'):
+                    continue
+                for n in ast.walk(m):
+                    if isinstance(n, (ast.Assign, ast.AugAssign)):
+                        for t in (n.targets if isinstance(n, ast.Assign) else [n.target]):
+                            if isinstance(t, ast.Attribute) and src(t.value) == 'self':
+                                writers.setdefault(t.attr, mname)
+        for a, t in sorted(prog.all_attrs(cls).items()):
+            if a in mentioned or any((c, a) in EXEMPT for c in prog.mro(cls)):
+                continue
+            if t.startswith('vector[') and (a + '_list' in mentioned or a[2:] in mentioned):
+                continue        # C vector rebuilt from its pickled list twin
+            derived = False
+            if ctor_call and init is not None:
+                for n in ast.walk(init):
+                    if isinstance(n, ast.Assign) and any(isinstance(x, ast.Attribute) and src(x.value) == 'self' and x.attr == a for x in n.targets):
+                        names = {x.id for x in ast.walk(n.value) if isinstance(x, ast.Name)}
+                        if names & set(params):
+                            derived = True
+                        elif a not in writers:
+                            derived = True          # a constant that no other method ever changes is not state
+            if not derived:
+                problems.append('%s (%s)%s' % (a, t, ' - set to a constant by the constructor but changed by %s()' % writers[a] if a in writers else ''))
+        ctx.ob('R17.2-reduce-coverage', cls, not problems, ctx.loc(mod, f),
+               '%s.__reduce__ carries every attribute that is state (directly, through __getstate__, or re-derived by the constructor from what is carried)' % cls,
+               'dropped on pickle/deepcopy: %s' % ', '.join(problems) if problems else '')
+
+
 def reduce_stubs():
     """class -> True if Cython's injected __reduce_cython__ is the raising stub, False if real; absent if none injected."""
     out = {}
@@ -415,6 +471,7 @@ def check(ctx):
         prog.mod(m)
     covered = check_pairs(ctx)
     check_coverage(ctx, covered)
+    check_reduce_coverage(ctx)
     check_picklable(ctx)
     check_binary(ctx)
     ctx.floor('R17.1-positions', 8)
